@@ -104,6 +104,10 @@ def build_cases(rng, quick):
     for v in POOL:
         cases.append([{"k": "f", "tag": 58, "val": v}, {"k": "f", "tag": 11, "val": "id"}])
         cases.append([{"k": "f", "tag": 1, "val": "acc"}, {"k": "f", "tag": 58, "val": v}])
+    # size regimes: BodyLength with 3, 4 and 5 digits, plain and with framing look-alikes inside the long value
+    for L in (880, 1100, 9800, 10100, 12000):
+        for v in ("x" * L, "x" * L + "8=FIX.4.4", "8=FIX." + "y" * L, "q" * (L // 2) + "\x0210=000" + "r" * (L // 2), "9=12" + "z" * L + "10="):
+            cases.append([{"k": "f", "tag": 11, "val": "id"}, {"k": "f", "tag": 58, "val": v}])
     cases.append([])
     return table, cases
 
